@@ -56,7 +56,10 @@ Inductive op :=
 | OBind (w : positive) (id : Z) (key : bool) (mask : Z) (ret : bool) (actions : list op)
 | OUnbind (w : positive) (id : Z)          (* tickit_window_unbind_event_id of the handler bound as number [id] *)
 | OGeom (w : positive)                     (* tickit_window_set_geometry to a different size: GEOMCHANGE runs on w *)
-| ONop.
+| ONop
+(* not client calls: the reference a dispatch frame of the library takes on the window it works on, and its
+   release.  They are in the trace so that a discipline can tell the client's references from the library's *)
+| OFrameRef (w : positive) | OFrameUnref (w : positive).
 
 Record handler := mkH { h_id : Z; h_key : bool; h_mask : Z; h_ret : bool; h_actions : list op }.
 
@@ -796,6 +799,15 @@ Definition is_child (fuel : nat) (w child : positive) : M bool :=
   c <- getw w ;; is_child_from fuel (w_first c) child.
 Definition window_ref (w : positive) : M unit := upd w (fun c => set_ref c (w_ref c + 1)).
 
+(* _handle_mouse_at: for(w = win->parent; w; w = w->parent) n++;  then the same walk again with
+   held[i++] = tickit_window_ref(w);  afterwards for(i = 0; i < n; i++) tickit_window_unref(held[i])
+   (ref_up and unref_list are part of the mutual definition below: they log their frame references) *)
+Fixpoint count_up (fuel : nat) (w : ptr) : M unit :=
+  match fuel with
+  | O => nofuel
+  | S f => match w with None => ret tt | Some a => c <- getw a ;; count_up f (w_parent c) end
+  end.
+
 Definition root_bound : M bool := fun h => Ok (PM.mem 1%positive (wins h)) h.
 
 Definition handler_fires_mouse (h : handler) (t : mtype) : bool :=
@@ -827,6 +839,8 @@ Fixpoint run_op (fuel : nat) (o : op) {struct fuel} : M unit :=
     | OUnbind w id => upd w (fun c => set_hs c (filter (fun hd => negb (h_id hd =? id)) (w_hs c)))
     | OGeom w => getw w ;;; ret tt
     | ONop => ret tt
+    | OFrameRef w => window_ref w
+    | OFrameUnref w => unref f w
     end
   end
 with run_ops (fuel : nat) (l : list op) {struct fuel} : M unit :=
@@ -877,7 +891,7 @@ with handle_key (fuel : nat) (w : positive) {struct fuel} : M bool :=
     c <- getw w ;;
     if negb (w_visible c) then ret false
     else
-      window_ref w ;;;
+      run_op f (OFrameRef w) ;;;
       c1 <- getw w ;;
       rs <- (match w_first c1 with
              | Some fc =>
@@ -887,26 +901,26 @@ with handle_key (fuel : nat) (w : positive) {struct fuel} : M bool :=
              end) ;;
       let r1 := fst rs in
       let stealer : ptr := if v_events_asis V then None else snd rs in   (* only compared, never dereferenced *)
-      (if r1 then (unref f w ;;; ret true)
+      (if r1 then (run_op f (OFrameUnref w) ;;; ret true)
        else
          c2 <- getw w ;;
          r2 <- (match w_focus c2 with
                 | Some fc => if ptr_eqb (Some fc) stealer then ret false else handle_key f fc
                 | None => ret false
                 end) ;;
-         if r2 then (unref f w ;;; ret true)
+         if r2 then (run_op f (OFrameUnref w) ;;; ret true)
          else
            c3 <- getw w ;;
            r3 <- run_key_handlers f w (w_hs c3) ;;
-           if r3 then (unref f w ;;; ret true)
+           if r3 then (run_op f (OFrameUnref w) ;;; ret true)
            else if v_events_asis V then
              c4 <- getw w ;;
              r4 <- key_kids_asis f w (w_first c4) ;;
-             unref f w ;;; ret r4
+             run_op f (OFrameUnref w) ;;; ret r4
            else
              kids <- copy_children f w ;;
              r4 <- key_kids f w stealer kids ;;
-             unref f w ;;; ret r4)
+             run_op f (OFrameUnref w) ;;; ret r4)
   end
 with key_kids (fuel : nat) (w : positive) (stealer : ptr) (kids : list positive) {struct fuel} : M bool :=
   match fuel with
@@ -947,26 +961,26 @@ with handle_mouse (fuel : nat) (w : positive) (t : mtype) (inside unset : bool) 
     c <- getw w ;;
     if negb (w_visible c) then ret None
     else
-      window_ref w ;;;
+      run_op f (OFrameRef w) ;;;
       if v_events_asis V then
         c1 <- getw w ;;
         r <- mouse_kids_asis f w (w_first c1) t inside unset ;;
         match r with
-        | Some _ => unref f w ;;; ret r
+        | Some _ => run_op f (OFrameUnref w) ;;; ret r
         | None =>
           c2 <- getw w ;;
           hr <- run_mouse_handlers f w (w_hs c2) t unset ;;
-          unref f w ;;; ret (if hr then Some w else None)
+          run_op f (OFrameUnref w) ;;; ret (if hr then Some w else None)
         end
       else
         kids <- copy_children f w ;;
         r <- mouse_kids f w kids t inside unset ;;
         match r with
-        | Some _ => unref f w ;;; ret r
+        | Some _ => run_op f (OFrameUnref w) ;;; ret r
         | None =>
           c2 <- getw w ;;
           hr <- run_mouse_handlers f w (w_hs c2) t unset ;;
-          unref f w ;;; ret (if hr then Some w else None)
+          run_op f (OFrameUnref w) ;;; ret (if hr then Some w else None)
         end
   end
 with mouse_kids (fuel : nat) (w : positive) (kids : list positive) (t : mtype) (inside unset : bool) {struct fuel} : M ptr :=
@@ -999,12 +1013,30 @@ with mouse_kids_asis (fuel : nat) (w : positive) (child : ptr) (t : mtype) (insi
            match r with Some _ => ret r | None => mouse_kids_asis f w next t inside unset end
     end
   end
+with ref_up (fuel : nat) (w : ptr) {struct fuel} : M (list positive) :=
+  match fuel with
+  | O => nofuel
+  | S f =>
+    match w with
+    | None => ret []
+    | Some a => run_op f (OFrameRef a) ;;; c <- getw a ;; l <- ref_up f (w_parent c) ;; ret (a :: l)
+    end
+  end
+with unref_list (fuel : nat) (l : list positive) {struct fuel} : M unit :=
+  match fuel with
+  | O => nofuel
+  | S f =>
+    match l with
+    | [] => ret tt
+    | a :: l' => run_op f (OFrameUnref a) ;;; unref_list f l'
+    end
+  end
 with on_term_mouse (fuel : nat) (t : mtype) {struct fuel} : M unit :=
   match fuel with
   | O => nofuel
   | S f =>
     let root := 1%positive in
-    (if v_events_asis V then ret tt else window_ref root) ;;;
+    (if v_events_asis V then ret tt else run_op f (OFrameRef root)) ;;;
     r <- getr root ;;
     (match t with
      | MPress => setr root (set_rpress r (Some true))
@@ -1026,7 +1058,14 @@ with on_term_mouse (fuel : nat) (t : mtype) {struct fuel} : M unit :=
          handle_mouse f root MDragDrop true false ;;;
          r1 <- getr root ;;
          (match r_drag r1 with
-          | Some (Some d) => abs_geometry f d ;;; handle_mouse f d MDragStop true false ;;; ret tt
+          | Some (Some d) =>
+            abs_geometry f d ;;;
+            if v_events_asis V then handle_mouse f d MDragStop true false ;;; ret tt
+            else                                                  (* _handle_mouse_at *)
+              cd <- getw d ;; count_up f (w_parent cd) ;;;
+              cd' <- getw d ;; held <- ref_up f (w_parent cd') ;;
+              handle_mouse f d MDragStop true false ;;;
+              unref_list f held
           | Some None => ret tt
           | None => note_uninit
           end) ;;;
@@ -1041,13 +1080,20 @@ with on_term_mouse (fuel : nat) (t : mtype) {struct fuel} : M unit :=
        match r_drag r2 with
        | Some (Some d) =>
          if negb (ptr_eqb handled (Some d))
-         then abs_geometry f d ;;; handle_mouse f d MDragOutside true false ;;; ret tt
+         then
+           abs_geometry f d ;;;
+           if v_events_asis V then handle_mouse f d MDragOutside true false ;;; ret tt
+           else                                                   (* _handle_mouse_at *)
+             cd <- getw d ;; count_up f (w_parent cd) ;;;
+             cd' <- getw d ;; held <- ref_up f (w_parent cd') ;;
+             handle_mouse f d MDragOutside true false ;;;
+             unref_list f held
          else ret tt
        | _ => ret tt
        end
      | _ => ret tt
      end) ;;;
-    (if v_events_asis V then ret tt else unref f root)
+    (if v_events_asis V then ret tt else run_op f (OFrameUnref root))
   end.
 
 (* ---- whole scripts ------------------------------------------------------------------- *)
